@@ -322,7 +322,7 @@ def slice_sources(work):
     eqr = common.read_repo("src/include/souffle/datastructure/EqRel.h")
     s["getsuper"] = K.extract_braced(gen, r"\nSuperInstruction NodeGenerator::getIndexSuperInstInfo\(const ram::IndexOperation& ramIndex\) \{",
                                      "NodeGenerator::getIndexSuperInstInfo").strip()
-    for need in ("MIN_RAM_SIGNED", "MAX_RAM_SIGNED", "isUndefValue", "order["):
+    for need in ("isUndefValue", "getRangePattern"):
         if need not in s["getsuper"]:
             raise EngineError("getIndexSuperInstInfo no longer mentions `%s`; the slice template is out of date" % need)
     s["superclass"] = K.extract_braced(node, r"\nclass SuperInstruction \{", "class SuperInstruction").strip().replace("std::vector", "vstd::vector") + ";"
